@@ -258,6 +258,23 @@ def run(ctx):
             da, db = a.halo_density(z, cosmo), b.halo_density(z, cosmo)
             if (db > da and not np.all(mb < m)) or (db < da and not np.all(mb > m)):
                 viol("conversion/denser-smaller", f"{a} -> {b} at z={z}: denser definition does not give a smaller mass", {"a": str(a), "b": str(b), "z": z})
+        # the type of the numbers handed in is immaterial: integer-typed concentrations / masses (scalar or array) convert like the same floats
+        for (a, b, z) in ((md.SOMean(overdensity=200), md.SOCritical(overdensity=200), 0.0), (md.SOCritical(overdensity=500), md.SOVirial(), 1.0)):
+            for m_i, c_i in ((np.array([10 ** 10, 10 ** 12, 10 ** 14], dtype=np.int64), np.array([5, 7, 12], dtype=np.int64)), (10 ** 13, 7),
+                             (np.array([1e11, 1e13]), np.array([4, 9], dtype=np.int32)), (np.array([10 ** 11, 10 ** 15], dtype=np.int64), None)):
+                nconv += 1
+                try:
+                    got_i = a.change_definition(m_i, b, profile=NFW(a, z, Planck15), c=c_i, z=z, cosmo=Planck15)
+                    m_f = np.asarray(m_i, dtype=float) if np.ndim(m_i) else float(m_i)
+                    c_f = None if c_i is None else (np.asarray(c_i, dtype=float) if np.ndim(c_i) else float(c_i))
+                    got_f = a.change_definition(m_f, b, profile=NFW(a, z, Planck15), c=c_f, z=z, cosmo=Planck15)
+                except Exception as e:
+                    viol("conversion/integer-typed-input-raises", f"{a} -> {b} at z={z} with integer-typed input raises {type(e).__name__}: {e}", {"a": str(a), "b": str(b), "z": z})
+                    continue
+                if not all(np.allclose(np.asarray(x, dtype=float), np.asarray(y, dtype=float), rtol=1e-9) for x, y in zip(got_i, got_f)):
+                    dev_ = max(float(np.max(np.abs(np.asarray(x, dtype=float) / np.asarray(y, dtype=float) - 1))) for x, y in zip(got_i, got_f))
+                    viol("conversion/integer-typed-input", f"{a} -> {b} at z={z}: integer-typed masses/concentrations (m={np.asarray(m_i).tolist()}, c={None if c_i is None else np.asarray(c_i).tolist()}) "
+                         f"convert to values {dev_:.3g} away from those for the same numbers as floats", {"a": str(a), "b": str(b), "z": z, "m": np.asarray(m_i).tolist(), "c": None if c_i is None else np.asarray(c_i).tolist()})
         # a whole mass function converted to another definition conserves cumulative number, at the object's own z and cosmology
         ncons = conservation(viol, quick)
         # measured definitions of the fits parse to the expected classes
